@@ -1,5 +1,216 @@
-import Sop.Model.Occ
+import Sop.Lemmas.OccSerial
+/-!
+# C02 — successfully committed transactions are serializable (Model L)
+
+* `Statement_C02` — the property at full strength over Model L (`Sop/Model/Occ.lean`): every schedule of every set
+  of transactions over every initial state and page partition is explainable by some serial order of its
+  committed transactions (reads and final state).
+* `C02_counterexample` — it is FALSE for the code as it is: the write-skew schedule of DESIGN.md §6 C02 (replayed on
+  the real code as the first case of `harness/cmd/c02`). Root cause: `lock()` is get / set / get without
+  compare-and-set, `unlock()` deletes by key, `checkTrackedItems` accepts "not found".
+* `C02_partial` / `C02_commit_order` / `C02_install_fresh` — under the explicit hypotheses `Good` (every state of the
+  run is `Covered`: between validation and install a transaction's tracked items carry its own lock record — what a
+  compare-and-set record would guarantee; `Shape` and `BeginSound`: the tracker recorded the committed state, no
+  successor alias), the commit-point order IS a serial explanation; proved by the invariant "at T's commit point
+  every item T tracked with get/update/remove still holds exactly what T read (version = versionInDB)".
+* `C02_partial_checked` — the same with the hypotheses as decidable checks (`GoodN`), and witnesses that they are
+  satisfiable by runs with interleaved commits (`good_serial`, `good_interleaved`, `good_conflict`) and violated by
+  the counterexample (`skew_not_good`).
+-/
 namespace Sop.C02
 open Sop.Occ
-theorem stub : True := trivial
+
+/-! ## the statement -/
+
+def insertAll {α : Type} (x : α) : List α → List (List α)
+  | [] => [[x]]
+  | y :: ys => (x :: y :: ys) :: (insertAll x ys).map (y :: ·)
+
+/-- all orders of a list -/
+def perms {α : Type} : List α → List (List α)
+  | [] => [[]]
+  | x :: xs => (perms xs).flatMap (insertAll x)
+
+theorem mem_insertAll_self {α : Type} (x : α) (l : List α) : x :: l ∈ insertAll x l := by
+  cases l <;> simp [insertAll]
+
+theorem self_mem_perms {α : Type} : ∀ l : List α, l ∈ perms l
+  | [] => by simp [perms]
+  | x :: xs => by
+    simp only [perms, List.mem_flatMap]
+    exact ⟨xs, self_mem_perms xs, mem_insertAll_self x xs⟩
+
+/-- `hs` (an order of the committed transactions) explains the run: every transaction read what a serial run in
+    that order shows it, and the final committed state is that serial run's -/
+def explains (g0 g : G) (hs : List HEntry) : Bool :=
+  (replay g0.db hs).2 && g.ids.all fun i => (replay g0.db hs).1 i = g.db i
+
+/-- C02 at full strength over Model L: every schedule of every set of transactions over every initial state and
+    every page partition ends with its committed transactions explainable by SOME serial order -/
+def Statement_C02 : Prop :=
+  ∀ (g0 : G) (sched : List (Nat × List Nat)), Init g0 → (perms (run g0 sched).hist).any (explains g0 (run g0 sched)) = true
+
+/-- under the hypotheses, the commit-point order is a serial explanation: reads and final state -/
+theorem C02_commit_order (g0 : G) (sched : List (Nat × List Nat)) (h0 : Init g0) (hg : Good g0 sched) :
+    replay g0.db (run g0 sched).hist = ((run g0 sched).db, true) :=
+  (inv_run sched g0 (inv_init h0) hg).rep
+
+/-- at every commit point the committing transaction's tracked get/update/remove items still hold exactly what it
+    read (value and version = versionInDB) -/
+theorem C02_install_fresh (g0 : G) (sched : List (Nat × List Nat)) (h0 : Init g0) (hg : Good g0 sched) (i : Nat)
+    (hw : InWindow ((run g0 sched).txns i)) : ∀ r ∈ ((run g0 sched).txns i).reads, (run g0 sched).db r.1 = some r.2 :=
+  fun r hr => (inv_run sched g0 (inv_init h0) hg).c i r hw hr
+
+theorem C02_partial (g0 : G) (sched : List (Nat × List Nat)) (h0 : Init g0) (hg : Good g0 sched) :
+    (perms (run g0 sched).hist).any (explains g0 (run g0 sched)) = true := by
+  rw [List.any_eq_true]
+  refine ⟨_, self_mem_perms _, ?_⟩
+  unfold explains
+  rw [C02_commit_order g0 sched h0 hg]
+  simp
+
+
+/-! ## the hypotheses as decidable checks over the first `n` transactions -/
+
+instance : DecidablePred InWindow := fun t => inferInstanceAs (Decidable (t.pc = .check ∨ t.pc = .install))
+
+def Covered1 (g : G) (i : Nat) : Prop :=
+  ∀ tr ∈ (g.txns i).tracked, InWindow (g.txns i) → tr.act ≠ .add →
+    (g.recs tr.item = some (ownRec i tr) ∨ (tr.act = .get ∧ (g.recs tr.item).map (·.act) = some .get))
+
+instance (g : G) : DecidablePred (Covered1 g) := fun i => by unfold Covered1; infer_instance
+
+def CoveredN (n : Nat) (g : G) : Prop := ∀ i, i < n → Covered1 g i
+
+def FreshAdd (g : G) (tr : Tr) (j : Nat) : Prop := ∀ tr' ∈ (g.txns j).tracked, tr'.act ≠ .add → tr'.item ≠ tr.item
+
+instance (g : G) (tr : Tr) : DecidablePred (FreshAdd g tr) := fun j => by unfold FreshAdd; infer_instance
+
+def Shape1 (n : Nat) (g : G) (i : Nat) : Prop :=
+  ∀ tr ∈ (g.txns i).tracked,
+    tr.phys = 0 ∧ (tr.act = .update → tr.nver = tr.ent.ver + 1) ∧ (tr.act = .add → ∀ j, j < n → FreshAdd g tr j)
+
+instance (n : Nat) (g : G) : DecidablePred (Shape1 n g) := fun i => by unfold Shape1; infer_instance
+
+def ShapeN (n : Nat) (g : G) : Prop := ∀ i, i < n → Shape1 n g i
+
+def BeginSoundD (g : G) (i : Nat) (hint : List Nat) : Prop :=
+  (g.txns i).pc = .begin → ∀ tr ∈ ((step g i hint).txns i).tracked, tr.act ≠ .add → g.db tr.item = some tr.ent
+
+instance (n : Nat) (g : G) : Decidable (CoveredN n g) := by unfold CoveredN; infer_instance
+instance (n : Nat) (g : G) : Decidable (ShapeN n g) := by unfold ShapeN; infer_instance
+instance (g : G) (i : Nat) (hint : List Nat) : Decidable (BeginSoundD g i hint) := by unfold BeginSoundD; infer_instance
+
+def GoodN (n : Nat) : G → List (Nat × List Nat) → Prop
+  | g, [] => CoveredN n g ∧ ShapeN n g
+  | g, s :: rest => CoveredN n g ∧ ShapeN n g ∧ BeginSoundD g s.1 s.2 ∧ GoodN n (step g s.1 s.2) rest
+
+instance (n : Nat) : ∀ (sched : List (Nat × List Nat)) (g : G), Decidable (GoodN n g sched)
+  | [], g => inferInstanceAs (Decidable (CoveredN n g ∧ ShapeN n g))
+  | s :: rest, g =>
+    have := instDecidableGoodN n rest (step g s.1 s.2)
+    inferInstanceAs (Decidable (CoveredN n g ∧ ShapeN n g ∧ BeginSoundD g s.1 s.2 ∧ GoodN n (step g s.1 s.2) rest))
+
+/-- transactions `n, n+1, …` do not exist -/
+def Quiet (n : Nat) (g : G) : Prop := ∀ i, n ≤ i → (g.txns i).pc = .done ∧ (g.txns i).tracked = []
+
+theorem quiet_step {n : Nat} {g : G} (q : Quiet n g) (i : Nat) (hint : List Nat) : Quiet n (step g i hint) := by
+  intro k hk
+  by_cases hki : k = i
+  · subst hki
+    have : step g k hint = g := by unfold step; simp only [(q k hk).1]
+    rw [this]; exact q k hk
+  · have : (step g i hint).txns k = g.txns k := by
+      rcases step_spec g i hint with ⟨_, h⟩ | ⟨_, h⟩ | ⟨_, h⟩ | ⟨_, _, _, h⟩
+      · rw [h]
+      · exact h.others k hki
+      · exact h.others k hki
+      · exact h.others k hki
+    rw [this]; exact q k hk
+
+theorem covered_of {n : Nat} {g : G} (q : Quiet n g) (h : CoveredN n g) : Covered g := by
+  intro i tr hw htr hne
+  by_cases hi : i < n
+  · exact h i hi tr htr hw hne
+  · have := (q i (Nat.le_of_not_lt hi)).1
+    rcases hw with hw | hw <;> rw [this] at hw <;> cases hw
+
+theorem shape_of {n : Nat} {g : G} (q : Quiet n g) (h : ShapeN n g) : Shape g := by
+  intro i tr htr
+  by_cases hi : i < n
+  · obtain ⟨a, b, c⟩ := h i hi tr htr
+    refine ⟨a, b, fun hadd j tr' htr' hne' => ?_⟩
+    by_cases hj : j < n
+    · exact c hadd j hj tr' htr' hne'
+    · rw [(q j (Nat.le_of_not_lt hj)).2] at htr'; cases htr'
+  · rw [(q i (Nat.le_of_not_lt hi)).2] at htr; cases htr
+
+theorem good_of {n : Nat} : ∀ (sched : List (Nat × List Nat)) (g : G), Quiet n g → GoodN n g sched → Good g sched
+  | [], _, q, h => ⟨covered_of q h.1, shape_of q h.2⟩
+  | s :: rest, _, q, h => ⟨covered_of q h.1, shape_of q h.2.1, h.2.2.1, good_of rest _ (quiet_step q s.1 s.2) h.2.2.2⟩
+
+/-- C02, partial: for `n` transactions, under the decidable hypotheses checked along the run -/
+theorem C02_partial_checked (n : Nat) (g0 : G) (sched : List (Nat × List Nat)) (h0 : Init g0) (q : Quiet n g0)
+    (hg : GoodN n g0 sched) : (perms (run g0 sched).hist).any (explains g0 (run g0 sched)) = true :=
+  C02_partial g0 sched h0 (good_of sched g0 q hg)
+
+/-! ## witnesses -/
+
+def absent : Txn := { pc := .done, res := .abort }
+
+/-- X = item 1 (key 10) on page 1, Y = item 2 (key 70) on page 2, both 100. T0 reads X and writes Y := X − 1;
+    T1 reads Y and writes X := Y − 1. -/
+def skew0 : G :=
+  { ids := [1, 2], pageOf := fun i => i,
+    db := fun i => if i = 1 then some ⟨10, 100, 0⟩ else if i = 2 then some ⟨70, 100, 0⟩ else none,
+    txns := fun i => if i = 0 then { prog := [.updf 70 10 (-1)] } else if i = 1 then { prog := [.updf 10 70 (-1)] } else absent }
+
+/-- the schedule of DESIGN.md C02: T1 does its work and its first lock-record read; T0 runs up to its install; T1
+    overwrites both records, verifies, locks, validates, re-checks, reaches its install; T0 installs and its
+    `unlock()` deletes T1's records; T1 installs. -/
+def skewSched : List (Nat × List Nat) := [1, 1, 0, 0, 0, 0, 0, 0, 0, 1, 1, 1, 1, 1, 0, 0, 1, 1].map fun i => (i, [])
+
+theorem skew0_init : Init skew0 :=
+  ⟨rfl, fun i => by
+    by_cases h0 : i = 0
+    · subst h0; exact Or.inl rfl
+    · by_cases h1 : i = 1
+      · subst h1; exact Or.inl rfl
+      · exact Or.inr (by simp [skew0, h0, h1, absent])⟩
+
+/-- both commit, X = Y = 99, and neither order explains it -/
+theorem C02_counterexample : ¬ Statement_C02 := fun h =>
+  absurd (h skew0 skewSched skew0_init) (by decide)
+
+theorem skew_outcome :
+    (run skew0 skewSched).hist.map (·.txn) = [0, 1] ∧
+    (run skew0 skewSched).db 1 = some ⟨10, 99, 1⟩ ∧ (run skew0 skewSched).db 2 = some ⟨70, 99, 1⟩ := by decide
+
+/-- the counterexample run violates the hypothesis (T0's record on X is overwritten while T0 is in its window) -/
+theorem skew_not_good : ¬ GoodN 2 skew0 skewSched := by decide
+
+/-- two read-modify-write transactions on different items -/
+def disj0 : G :=
+  { skew0 with txns := fun i => if i = 0 then { prog := [.updf 10 10 (-1)] } else if i = 1 then { prog := [.updf 70 70 (-2)] } else absent }
+
+def rrSched : List (Nat × List Nat) := [0, 1, 0, 1, 0, 1, 0, 1, 0, 1, 0, 1, 0, 1, 0, 1, 0, 1, 0, 1].map fun i => (i, [])
+def serialSched : List (Nat × List Nat) := [0, 0, 0, 0, 0, 0, 0, 0, 0, 1, 1, 1, 1, 1, 1, 1, 1, 1].map fun i => (i, [])
+
+/-- non-vacuity of the hypotheses: the write-skew transactions run one after the other — both commit -/
+theorem good_serial : GoodN 2 skew0 serialSched ∧ (run skew0 serialSched).hist.map (·.txn) = [0, 1] := by decide
+
+/-- non-vacuity: two read-modify-write transactions on different items, interleaved step by step — both commit -/
+theorem good_interleaved : GoodN 2 disj0 rrSched ∧ (run disj0 rrSched).hist.map (·.txn) = [0, 1] := by decide
+
+/-- non-vacuity: the write-skew transactions interleaved step by step — the lock records do their job, one fails -/
+theorem good_conflict : GoodN 2 skew0 rrSched ∧ (run skew0 rrSched).hist.map (·.txn) = [1] ∧ ((run skew0 rrSched).txns 0).res = .err := by decide
+
+theorem quiet_skew0 : Quiet 2 skew0 := fun i hi => by
+  have h0 : i ≠ 0 := by omega
+  have h1 : i ≠ 1 := by omega
+  simp [skew0, h0, h1, absent]
+
+example : (perms (run skew0 serialSched).hist).any (explains skew0 (run skew0 serialSched)) = true :=
+  C02_partial_checked 2 skew0 serialSched skew0_init quiet_skew0 good_serial.1
+
 end Sop.C02
